@@ -57,9 +57,11 @@ def make_clusters(rng, rows, n_clusters, outlier_prob_col=None):
         if r["mutation_id"] not in muts:
             muts.append(r["mutation_id"])
     n_clusters = max(1, min(n_clusters, len(muts)))
-    assign = {m: i for i, m in enumerate(muts[:n_clusters])}
+    # integer cluster ids (as PyClone-VI emits) that sort differently as numbers and as strings
+    ids = [2, 10, 33, 7, 100, 21, 5, 64][:n_clusters] if n_clusters <= 8 else list(range(n_clusters))
+    assign = {m: ids[i] for i, m in enumerate(muts[:n_clusters])}
     for m in muts[n_clusters:]:
-        assign[m] = int(rng.integers(0, n_clusters))
+        assign[m] = ids[int(rng.integers(0, n_clusters))]
     out = []
     for r in rows:
         row = {"mutation_id": r["mutation_id"], "sample_id": r["sample_id"], "cluster_id": assign[r["mutation_id"]],
